@@ -40,10 +40,11 @@
  * `struct in IN;` and starts its harness with VF_LOAD_IN(). */
 struct in;
 #ifdef VF_NATIVE
-#define VF_LOAD_IN() do { static const struct in vf_in0_ = VF_IN_INIT; IN = vf_in0_; } while (0)
+#define VF_LOAD_IN() do { static const struct in vf_in0_ = VF_IN_INIT; IN = vf_in0_; vf_nchoice_ = 0; vf_errno = 0; } while (0)
 #else
 struct in nondet_in(void);
-#define VF_LOAD_IN() do { IN = nondet_in(); } while (0)
+/* ghost/static state is reset explicitly: under --dfcc every static starts nondeterministic */
+#define VF_LOAD_IN() do { IN = nondet_in(); vf_nchoice_ = 0; } while (0)
 #endif
 
 #ifdef VF_NATIVE
@@ -95,6 +96,9 @@ int vf_native_failed;
  */
 #ifndef VF_NCHOICE
 #define VF_NCHOICE 8
+#endif
+#ifndef VF_CHOICES
+#define VF_CHOICES IN.ch      /* units using choice-drawing stubs declare `unsigned ch[VF_NCHOICE];` in struct in, before including the stubs */
 #endif
 unsigned vf_nchoice_;
 #ifdef VF_NATIVE
